@@ -555,14 +555,28 @@ pub fn build_box(spec: &Spec) -> BoxSource {
 pub fn build_with(spec: &Spec, wrap: Wrap) -> Built {
   let other = |b: BoxSource| Built::Other(wrap(spec, b));
   match spec {
-    Spec::Raw { text } => other(RawSource::from(text.clone()).boxed()),
-    Spec::RawBytes { bytes } => other(RawSource::from(bytes.clone()).boxed()),
-    Spec::RawString { text } => {
-      other(RawStringSource::from(text.clone()).boxed())
-    }
-    Spec::RawBuffer { bytes } => {
-      other(RawBufferSource::from(bytes.clone()).boxed())
-    }
+    // the constructor variant (owned / borrowed argument) is picked by the
+    // length of the text so that every public constructor is exercised
+    Spec::Raw { text } => other(if text.len() % 2 == 0 {
+      RawSource::from(text.clone()).boxed()
+    } else {
+      RawSource::from(text.as_str()).boxed()
+    }),
+    Spec::RawBytes { bytes } => other(if bytes.len() % 2 == 0 {
+      RawSource::from(bytes.clone()).boxed()
+    } else {
+      RawSource::from(bytes.as_slice()).boxed()
+    }),
+    Spec::RawString { text } => other(if text.len() % 2 == 0 {
+      RawStringSource::from(text.clone()).boxed()
+    } else {
+      RawStringSource::from(text.as_str()).boxed()
+    }),
+    Spec::RawBuffer { bytes } => other(if bytes.len() % 2 == 0 {
+      RawBufferSource::from(bytes.clone()).boxed()
+    } else {
+      RawBufferSource::from(bytes.as_slice()).boxed()
+    }),
     Spec::Original { text, name } => {
       other(OriginalSource::new(text.clone(), name.clone()).boxed())
     }
